@@ -583,21 +583,17 @@ class SpecCISet:
     def __init__(self, members=(), taint=None, quirk=False):
         self.s = []
         self.taint = taint if taint is not None else []
-        # quirk = the behaviour known findings F08b / F08c describe, and nothing else: the item list
-        # and the case-folded lookup set are kept side by side; the constructor keeps every spelling
-        # in the list (F08c) and item assignment does not look for the new value elsewhere in the
-        # list (F08b); membership / len / bool follow the lookup set, iteration / indexing /
+        # quirk = the behaviour known finding F08b describes, and nothing else: the item list and
+        # the case-folded lookup set are kept side by side and item assignment does not look for
+        # the new value elsewhere in the list (F08b); membership / len / bool follow the lookup set, iteration / indexing /
         # to_header the list, removal takes the first list item that matches
         self.quirk = quirk
         self.keys = set()
         for h in members:
-            if quirk:
+            # (as repaired by 1a2e0e6 the constructor keeps the first spelling of a member)
+            if not self._has(h):
                 self.s.append(h)
                 self.keys.add(h.lower())
-            elif self._has(h):
-                self.taint.append("F08c")
-            else:
-                self.s.append(h)
 
     def _has(self, h):
         if self.quirk:
@@ -1437,6 +1433,10 @@ class HeaderSetStream(OpsStream):
     SMALL = [["add", "a"], ["add", "A"], ["add", "b"], ["remove", "A"], ["remove", "b"], ["discard", "a"], ["update", ["A", "b"]], ["clear"], ["delitem", 0], ["delitem", -1], ["setitem", 0, "B"], ["setitem", -1, "a"], ["setitem", 0, "n"]]
     TINY = [["add", "a"], ["add", "B"], ["remove", "A"], ["discard", "b"], ["update", ["A", "b"]], ["delitem", 0], ["setitem", 0, "B"], ["setitem", -1, "n"], ["clear"]]
     corpus = [
+        # F08c (repaired by 1a2e0e6): the constructor keeps one spelling of a member
+        {"init": ["a", "A"], "ops": [], "all": 1},
+        {"init": ["a", "A"], "ops": [["remove", "a"]], "all": 1},
+        {"init": ["b", "a", "B", "c"], "ops": [["delitem", 0], ["add", "B"]], "all": 1},
         # F08a (repaired by bc9f56a): remove() with a different letter case
         {"init": ["foo", "bar"], "ops": [["remove", "Foo"]], "all": 1},
         {"init": ["Cookie"], "ops": [["remove", "Cookie"]], "all": 1},
@@ -2172,8 +2172,11 @@ class ProbeStream(Stream):
     name = "probes"
     KINDS = ["MultiDict", "ImmutableMultiDict", "Headers", "HeaderSet", "ImmutableDict", "ImmutableTypeConversionDict", "ImmutableList", "CombinedMultiDict", "FileMultiDict", "TypeConversionDict"]
     ASPECTS = ["copy.copy", "copy()", "deepcopy", "pickle2", "pickle5", "eq", "eqhash"]
-    # F08h (repaired by 27361e1): deepcopy of a CombinedMultiDict used to be an unusable object
+    # F08h (repaired by 27361e1): deepcopy of a CombinedMultiDict used to be an unusable object;
+    # F08g (repaired by 2346059): copy.copy(HeaderSet) used to share the containers of the original
     corpus = [
+        {"kind": "HeaderSet", "aspect": "copy.copy", "pairs": [["a", "1"]]},
+        {"kind": "HeaderSet", "aspect": "copy.copy", "pairs": [["a", "1"], ["b", "x"], ["a", "2"]]},
         {"kind": "CombinedMultiDict", "aspect": "deepcopy", "pairs": [["a", "1"], ["b", "x"], ["a", "2"]]},
         {"kind": "CombinedMultiDict", "aspect": "deepcopy", "pairs": []},
     ]
@@ -2393,9 +2396,7 @@ class ProbeStream(Stream):
             return None
         kind, asp = case["kind"], case["aspect"]
         # a key only for the exact call site and the exact outcome the finding describes
-        pre = ""
-        if kind == "HeaderSet" and asp == "copy.copy" and real_out == "mutating the copy changed the original":
-            pre = "F08g: "  # copy.copy(HeaderSet): same content, same type, only the aliasing
+        pre = ""  # (F08g, copy.copy(HeaderSet) aliasing, is repaired by 2346059: nothing maps to it)
         if kind == "CombinedMultiDict" and asp == "eq" and real_out == "objects with different content compare equal;objects that compare equal hash differently":
             pre = "F08i: "  # == ignores the wrapped dicts while the hash does not; nothing else is wrong
         return pre + f"{kind} {asp}: {real_out}"
@@ -2422,7 +2423,7 @@ CHECK = Check(
         "copies: Model.ContainersHeap gives MultiDict object identity (inner lists = heap objects, mutated in place where the code does, live lists leaked by setlistdefault, copy()/copy.copy/deepcopy/unpickling allocate new list objects); copy_independent is proved there for all histories on either object and alias_copy_not_independent shows a list-sharing copy falsifies it; tied to the code by stream copy-heap (original and copy, all reads of both after every step). Values are atoms (deepcopy of nested mutable values is exercised by stream probes only). Headers / HeaderSet / immutable containers: copy / pickle content as functions of the state (headers_copy_eq, md_pickle_roundtrip), aliasing by stream probes",
         "equality / hashing: dict equality and the frozenset of items(multi=True) are modelled as functions of the state (imd_eq_hash_consistent); Python's hash() itself is opaque (equal hashed values give equal hashes)",
         "immutable variants: the model executes a mutator call on an immutable class through Imm.call, which consults the regenerated blocker table (immutable_unchanged_after_refusal is a theorem over table + model; the drivers for ImmutableMultiDict, CombinedMultiDict, EnvironHeaders, ImmutableTypeConversionDict use it)",
-        "known findings F08b, F08c (HeaderSet item assignment / constructor create case-duplicates), F08d (MultiDict key with zero values): negation witnesses proved, theorems carry the excluding hypotheses; a violation is mapped to one of these keys only when the history contains the call the finding names AND the whole observed outcome equals the outcome that finding describes (reference models with exactly that quirk: SpecMultiMap(quirk=True), SpecCISet(quirk=True)); F08g/F08i (copy.copy(HeaderSet) aliasing, CombinedMultiDict ==) are keyed by exact call site and exact outcome text in stream probes",
+        "known findings F08b (HeaderSet item assignment creates a case-duplicate), F08d (MultiDict key with zero values): negation witnesses proved, theorems carry the excluding hypotheses; a violation is mapped to one of these keys only when the history contains the call the finding names AND the whole observed outcome equals the outcome that finding describes (reference models with exactly that quirk: SpecMultiMap(quirk=True), SpecCISet(quirk=True)); F08i (CombinedMultiDict ==) is keyed by exact call site and exact outcome text in stream probes; F08c (constructor) and F08g (copy.copy(HeaderSet)) are repaired by 1a2e0e6 / 2346059, their former failing inputs are corpus regression cases",
     ],
     trusted_extra=["CPython dict/list/str semantics for the modelled primitives (validated by the streams, not verified)"],
     quick_budget=60000,
@@ -2431,7 +2432,7 @@ CHECK = Check(
 
 MANIFEST = {
     "level_text": "Machine-checked Lean 4 refinement theorems: the transcribed MultiDict / Headers / HeaderSet methods refine the documented abstract models (insertion-ordered multimap, case-insensitive pair list, case-insensitive ordered set) for every operation history (Headers: every keyed mutator = a sequence of the atomic actions append / replace-first-drop-rest / drop-all up to the first refused value, hdr_refines); HeaderSet invariant preservation; Headers.set algebra; Immutable* blocker tables regenerated from the live classes and closed by decide, and every history of mutator calls on an immutable instance is refused leaving it unchanged (theorem over table + model); TypeConversionDict.get(type=), FileMultiDict.add_file, bulk update from every input form, single-key mutator laws; CombinedMultiDict = merge of the wrapped dicts (first-wins get, concatenated lists in first-appearance key order); pickle round trip, copy/deepcopy content, ==/hash consistency of the immutable multidict; copies are independent of the original in a heap model with list-object identity (all histories on either object, incl. appends through leaked live lists). The transcriptions are tied to the code by exhaustive short-history correspondence streams and the property oracle (independent Python reference models) runs on the real code.",
-    "level_note": "Trusted: Lean kernel; extract.py; harness; CPython dict/list/str primitives (modelled, validated). copy independence proved in the heap model (values as atoms) and checked on the code by stream copy-heap; Python hash() opaque. Known findings F08b, F08c, F08d, F08g, F08i.",
+    "level_note": "Trusted: Lean kernel; extract.py; harness; CPython dict/list/str primitives (modelled, validated). copy independence proved in the heap model (values as atoms) and checked on the code by stream copy-heap; Python hash() opaque. Known findings F08b, F08d, F08i.",
     "technique": "Lean 4 proof (refinement by induction over operation histories, decide over regenerated tables) + model/code correspondence",
     "design_ref": "DESIGN.md section 4, C08",
 }
